@@ -105,7 +105,7 @@ def gen(rng, tier, index):
             case["cuts"] = case["cuts"] * unit**2
     case["unit"] = unit
     case["bystander"] = bool(rng.random() < 0.4)
-    case["wdtype"] = gens.pick(rng, (None, None, None, "uint8", "uint16", "uint64", "int32", "float32"))  # weights as ranks / counts in another dtype
+    case["wdtype"] = gens.pick(rng, (None, None, None, "uint8", "uint16", "uint64", "int32", "float32", "int64+2^60", "uint64+2^63"))  # weights as ranks / counts in another dtype
     case["failed_fit"] = bool(rng.random() < 0.4)
     case["cell_set"] = gens.pick(rng, ("ctor", "ctor", "set_params", "setattr", "decoy_then_set"))
     case["refit"] = bool(rng.random() < 0.4)  # the estimator is fitted again (other data in between)
@@ -225,7 +225,13 @@ def _fit(case, X, w, cuts=None, record=None, graphs=None, est=None):
         ctxs.append(rt.patched(mod, "_get_gabriel_graph", wg))
     wfit = w.copy()
     if case.get("wdtype") and len(w) < 250:
-        wfit = np.argsort(np.argsort(w)).astype(case["wdtype"])  # the same order of weights, stored as ranks in another dtype
+        wd_, off_ = case["wdtype"], 0
+        if "+2^" in wd_:  # counts far beyond 2^53: distinct as integers, equal once rounded to double precision
+            wd_, e_ = wd_.split("+2^")
+            off_ = 2 ** int(e_)
+        wfit = np.argsort(np.argsort(w)).astype(wd_)  # the same order of weights, stored as ranks in another dtype
+        if off_:
+            wfit = wfit + np.array(off_, dtype=wd_)
     if case.get("failed_fit") and est is None:
         # a failure in the history: a successful fit on other points of the same number, then fits on THESE points that are
         # refused (weights missing, weights of another length), then the legal fit
@@ -270,6 +276,8 @@ def run(case, j):
         j.note("free_space_fits_next_to_a_periodic_bystander")
     if case.get("wdtype") and n < 250:
         j.note("weights_as_ranks_in_another_dtype")
+        if "+2^" in case["wdtype"]:
+            j.note("integer_weights_beyond_2^53")
     if case.get("failed_fit"):
         j.note("legal_fits_after_refused_fits")
     if cell is not None:
